@@ -209,7 +209,24 @@ def pipeline_probe(res):
             if npanic == 1:
                 res.violation({'engine': 'replay', 'harness': 'pipeline', 'class': 'panic:' + c['panic'].split(' at ')[0][:40]},
                               'the compiler panics on %r: %s' % (t[:300], c['panic']), {'template': t})
-    res.coverage['pipeline_probe'] = {'programs': len(progs), 'panics': npanic, 'note': 'concrete runs; supporting only'}
+    # raw-text elements: the end-tag scanner of <wxs> with closing-tag look-alikes in the script (0..3 of them, followed by a name
+    # character / space / '>' / end of input, ASCII and multi-byte text around): each in its own process with a time limit
+    looks = ['</wxs-a>', '</wxsx', '</wx', '</wxs ', '</ wxs>', '<wxs>', '</WXS>', '</wxs.b>']
+    raw = []
+    for k in range(0, 4):
+        for a in looks[:4 if k > 1 else len(looks)]:
+            body = ';'.join('var v%d="%s%s"' % (i, '\u4e2d' if i % 2 else '', a) for i in range(k))
+            raw.append('<wxs module="m">%s</wxs><view>{{ m.v0 }}</view>' % body)
+    raw += ['<wxs module="m">var a="</wxs-a>"; var b="</wxs-b>";</wxs>', '<wxs module="m">a</wxs-a></wxs-b>', '<wxs module="m"></wxs', '<wxs module="m"></wxsa></wxsb>']
+    nraw = 0
+    for t in raw:
+        r = replay_template(t, timeout=10)
+        nraw += 1
+        if r != 'ok':
+            res.violation({'engine': 'replay', 'harness': 'pipeline', 'class': 'raw-text:' + r.split(':')[0]},
+                          'the compiler %s on %r' % ('does not terminate within 10 s' if r == 'hang' else 'fails (%s)' % r, t), {'template': t})
+            break
+    res.coverage['pipeline_probe'] = {'programs': len(progs), 'panics': npanic, 'raw_text_templates': nraw, 'note': 'concrete runs; supporting only'}
     res.coverage['traces_validated_against_impl'] = res.coverage.get('traces_validated_against_impl', 0) + len(progs)
 
 
